@@ -35,7 +35,7 @@ func wAll() map[string]int {
 
 func baseProfile() *Profile {
 	return &Profile{MinTasks: 2, MaxTasks: 4, MinOps: 2, MaxOps: 6, InitMax: 6, Logs: true, AutoP: 0.5, HandlesPerTask: 3,
-		RefsPerTxn: [2]int{0, 3}, LogsPerTxn: [2]int{0, 2}, SkipNameCheckP: 0.3, W: wAll(), MultiSpan: true, DeepInitP: 0.04}
+		RefsPerTxn: [2]int{0, 3}, LogsPerTxn: [2]int{0, 2}, SkipNameCheckP: 0.3, W: wAll(), MultiSpan: true, DeepInitP: 0.04, IdxJumpP: 0.02}
 }
 
 // stormProfile: 3-4 processes compacting short, mostly disjoint ranges of a
